@@ -10,8 +10,11 @@ import subprocess
 from . import common as C
 
 
-def run_witness(tag, target_rel, witness_src, test_filter="verif_witness", replay_input=None, timeout=600, mode="search"):
+def run_witness(tag, target_rel, witness_src, test_filter="verif_witness", replay_input=None, timeout=None, mode="search"):
     """returns (witnesses:list[dict], log_tail:str, ok:bool)"""
+    if timeout is None:
+        # the thorough tier runs larger grids (confine: location grammar at depth 4, about 240 000 writer runs)
+        timeout = 3600 if os.environ.get("VERIF_TIER") == "thorough" else 600
     d = C.repo_copy(tag)
     p = os.path.join(d, target_rel)
     orig = open(os.path.join(C.REPO, target_rel)).read()
